@@ -211,9 +211,9 @@ def check_assignment(r, info, ff, opts, ref_table=None, tag=""):
     k = 0  # cursor in the PQR atom list
     residues = r.bm.residues
     # harness knowledge by (chain, res_seq)
-    by_key = {(i["res_seq"]): i for i in info}
+    by_key = {(i["res_seq"], i.get("icode", "")): i for i in info}
     for res in residues:
-        inf = by_key.get(res.res_seq)
+        inf = by_key.get((res.res_seq, res.ins_code))
         names = [a.name for a in res.atoms]
         if isinstance(res, aa.Amino):
             state = corpus.state_ref(inf["input"], inf["position"], names,
